@@ -56,6 +56,11 @@ int main(int argc, char** argv) {
   BoxOpts ow = wide_layer(o.cf); ow.inplace = true;
   std::vector<ApiGroup> wgroups = api_groups(ow);
   run_groups(wgroups, ow, "module entry points, wide shapes");
+  if (!args.thorough()) {
+    BoxOpts ot = top_layer(); ot.inplace = true;
+    std::vector<ApiGroup> tgroups = api_groups(ot);
+    run_groups(tgroups, ot, "module entry points, N = 65536");
+  }
   // exported kernels (q120, reim, reim4, cplx, coefficient kernels): const operands and tables
   std::vector<KernelGroup> kg = kernel_groups(args.thorough());
   ctx.parallel(kg.size(), [&](uint64_t gi) {
